@@ -152,16 +152,7 @@ func (c10) gen0(rng *rand.Rand, tier string, idx int) Case {
 		to := []int64{1000, 500, 1500, 90000}[rng.Intn(4)]
 		c.Cfg = [][]string{{"kind", "sqlsession"}, {"timeout", itoa(to)}, {"ooo", "0"}, {"late", "0"}, {"now", "0"}, {"spell", []string{"ms", "go"}[rng.Intn(2)]}}
 		genSQLSession(rng, &c, to)
-		if rng.Intn(3) == 0 {
-			// the same feed through the window package's own API with the window's real goroutine; half of these on a
-			// window object that was started, Reset() and started again
-			c.Cfg = append(c.Cfg, []string{"winapi", "1"})
-			c.Stat = append(c.Stat, "session-window-api")
-			if rng.Intn(2) == 0 {
-				c.Cfg = append(c.Cfg, []string{"reuse", "1"})
-				c.Stat = append(c.Stat, "session-window-reset-then-started-again")
-			}
-		}
+		maybeWinAPI(rng, &c)
 		return c
 	}
 	timeouts := []int64{10, 1000, 1_000_000_000, 3}
